@@ -45,6 +45,8 @@ func (h *hx) round(r int) {
 	h.clientScenarios(r, A, B, c0, c1)
 	h.keySwapScenarios(A, B, c0, c1)
 	h.defaultSecretInstances(a, c0, t0+300*sec)
+	h.longSecretInstances(a, c1, t0+400*sec)
+	h.hostPortFamily(A, c0, t0+500*sec)
 	h.e2ePair(A, c0, hostnames[0], t0+100*sec)
 	h.e2ePair(B, c1, hostnames[1], t0+200*sec)
 }
@@ -169,6 +171,25 @@ func (h *hx) mutVerify(s *sess, others []*sess, ctx []srvCfg) {
 		items := with(with(base, "opaque", tok), "sig", h.pv(sym.Sig(s.cli, sym.MsgClient(sym.Empty(), spk, hostT), 0)))
 		items = with(items, "public-key", h.pv(sym.Pub(s.cli)))
 		h.try(req{s.srv, s.host, now + sec, items, "", "token_as_opaque_signed_empty_challenge"})
+	}
+	// all three of sig, opaque and bearer in one header (ParseHeaderVal gives sig+opaque the
+	// priority), with tokens and challenge states in either slot
+	if tok, ok := get(s.stage["c4"], "bearer"); ok {
+		otok, _ := get(others[0].stage["c4"], "bearer")
+		sigEmpty := h.pv(sym.Sig(s.cli, sym.MsgClient(sym.Empty(), spk, hostT), 0))
+		sigReal, _ := get(base, "sig")
+		pkv := h.pv(sym.Pub(s.cli))
+		slotBearer := map[string]sym.PVal{"junk": h.pv(h.w.NewGarbage()), "empty": h.w.PVRaw(""), "other_token": otok,
+			"challenge_state": opq, "bad_base64": h.w.PVRaw("!!")}
+		for bn, bv := range slotBearer {
+			for on, ov := range map[string]sym.PVal{"token": tok, "other_token": otok, "challenge_state": opq} {
+				for sn, sv := range map[string]sym.PVal{"empty_challenge": sigEmpty, "real_challenge": sigReal} {
+					items := with(with(with(base, "opaque", ov), "sig", sv), "public-key", pkv)
+					items = dupBack(items, "bearer", bv)
+					h.try(req{s.srv, s.host, now + sec, items, "", "three_params_bearer_" + bn + "_opaque_" + on + "_sig_" + sn})
+				}
+			}
+		}
 	}
 	// short / missing challenge-server (server-initiated: the server must sign it)
 	h.try(req{s.srv, s.host, now, with(base, "challenge-server", h.w.PVRaw("short")), "", "challenge_server_short"})
